@@ -160,8 +160,11 @@ def main(argv=None) -> int:
             b = by_backend.setdefault(o["backend"] or "z3-api", {"count": 0, "seconds": 0.0})
             b["count"] += 1
             b["seconds"] += o["time"]
-            if o["kind"] == "cover":
+            if o["kind"] in ("cover", "cover_exit"):
                 covers += 1
+            if o["kind"] == "cover_exit" and not o["ok"]:
+                n_ob -= 1   # an individually infeasible exit path is not an obligation; the function-level guard is the `cover` entry
+                continue
             if o["ok"]:
                 n_ok += 1
                 if len(samples) < 6 and o["kind"] in ("post", "xpost", "inv", "frame", "pre"):
